@@ -11,6 +11,7 @@ extern "C" struct alw_ctl alw __attribute__((weak));
 #include <thread>
 #include <cerrno>
 #include <cstring>
+#include <sys/mman.h>
 
 namespace al {
 
@@ -75,6 +76,25 @@ static inline void prelife(assemblyline_t a, uint64_t seed, const spec::Opts &o)
   asm_set_offset(a, 0);
 }
 
+// The program text in memory the library may read but not write (the entry points take a const char *; a string literal or a
+// read-only mapping of a source file are such memory), with its terminating NUL in the last byte in front of an inaccessible page.
+struct RoText {
+  char *p = nullptr; void *base = nullptr; size_t span = 0;
+  explicit RoText(const std::string &t) {
+    size_t pg = 4096, len = t.size() + 1; span = (len + pg - 1) / pg * pg;
+    base = mmap(nullptr, span + pg, PROT_NONE, MAP_PRIVATE | MAP_ANONYMOUS, -1, 0); if (base == MAP_FAILED) { base = nullptr; return; }
+    mprotect(base, span, PROT_READ | PROT_WRITE); p = (char *)base + (span - len); memcpy(p, t.c_str(), len); mprotect(base, span, PROT_READ);
+  }
+  ~RoText() { if (base) munmap(base, span + 4096); }
+  RoText(const RoText &) = delete; RoText &operator=(const RoText &) = delete;
+};
+// Other instances come and go while the instance under test lives: one is created and destroyed, and (fault-injectable build, when no
+// fault enumeration is in progress) the creation of another one is refused by the operating system.
+static inline void others_come_and_go(unsigned sel) {
+  assemblyline_t b = asm_create_instance(nullptr, 0); if (b) { if (sel & 1) asm_assemble_str(b, "xchg rax, rbx\n"); asm_destroy_instance(b); }
+  if (&alw != nullptr && !alw.armed) { alw.fail_next_kind = ((sel & 2) ? ALW_MMAP : ALW_MALLOC) + 1; assemblyline_t c = asm_create_instance(nullptr, 0); alw.fail_next_kind = 0; if (c) asm_destroy_instance(c); }
+}
+
 // Assemble `text` on a new instance over a caller buffer of `n` bytes, starting at `start`.  Derived from the text's
 // hash: which equivalent setter path configures the instance, whether the instance has a previous life, whether the
 // documented entry point or its deprecated alias is called, and the value errno has on entry (it is the caller's, and
@@ -92,8 +112,12 @@ static inline Result assemble(const std::string &text, int combo, int n = 256, i
   r.off_before = start;
   { static const int E[] = {0, ERANGE, EINVAL, ENOMEM, EINTR, EBADF, ENOENT, 0}; errno = E[(h >> 13) % 8]; }
   // one case in 64: the instance is handed to a thread that has never created one itself and is used there
-  if ((h >> 5) % 64 == 9) { std::thread t([&]() { r.rc = call_str(a, text.c_str(), h >> 17); }); t.join(); }
-  else r.rc = call_str(a, text.c_str(), h >> 17);
+  // one case in 64: other instances are created (one of them in vain) and destroyed between the configuration and the call
+  if ((h >> 9) % 64 == 3) { int e = errno; others_come_and_go(h >> 25); errno = e; }
+  // one case in 16: the text lies in read-only memory that ends with its NUL
+  std::unique_ptr<RoText> ro; const char *tp = text.c_str(); if ((h >> 11) % 16 == 6) { ro.reset(new RoText(text)); if (ro->p) tp = ro->p; }
+  if ((h >> 5) % 64 == 9) { std::thread t([&]() { r.rc = call_str(a, tp, h >> 17); }); t.join(); }
+  else r.rc = call_str(a, tp, h >> 17);
   r.off_after = asm_get_offset(a);
   for (int i = 0; i < start; i++) if (buf[i] != fill) r.prefix_touched = true;
   if (r.rc == 0 && r.off_after >= start && r.off_after <= n) r.bytes.assign(buf.get() + start, buf.get() + r.off_after);
